@@ -4,7 +4,13 @@ COQTIMEOUT ?= 3000
 DRIVERS := $(patsubst ocaml/%_driver.ml,ocaml/bin/%_driver,$(wildcard ocaml/*_driver.ml))
 
 .PHONY: setup regen coq drivers clean
-setup: regen coq drivers
+# Each step tolerates failures of single properties: a property whose theories or driver do not build is
+# reported by its own check (proof obligations not discharged / correspondence broken), not by setup.
+setup:
+	-$(MAKE) regen
+	-$(MAKE) coq
+	-$(MAKE) -k drivers
+	@echo "setup finished"
 
 regen:
 	python3 bin/regen
